@@ -729,7 +729,7 @@ def rule_no_partial_ops(rep: Report, repo: Repo, rule: str) -> None:
     mm = repo.module(AGG)
     n = 0
     for mname, fn in ci.methods.items():
-        if not (mname.startswith("process_") or mname.startswith("enter") or mname == "clean_doc_lines"):
+        if mname.startswith("__"):
             continue
         n += 1
         probs = []
@@ -746,17 +746,27 @@ def rule_no_partial_ops(rep: Report, repo: Repo, rule: str) -> None:
                         guarded = any(recv.id in norm(g.test) for g in gs)
                         if not guarded:
                             probs.append(f"{norm(node)[:60]}: `{recv.id}` may be None")
+            if isinstance(node, ast.Call) and call_name(node) in ("min", "max") and len(node.args) == 1 \
+                    and not any(k.arg == "default" for k in node.keywords) \
+                    and not (isinstance(node.args[0], (ast.List, ast.Tuple)) and node.args[0].elts):
+                probs.append(f"{norm(node)[:60]}: ValueError when the sequence is empty (e.g. a doccomment that opens and closes on one line)")
             if isinstance(node, ast.Call) and call_name(node) in ("int", "float") and node.args and "getText" in norm(node.args[0]):
                 probs.append(f"{norm(node)[:60]}: ValueError for non-numeric argument text")
             if isinstance(node, ast.Call) and isinstance(node.func, ast.Attribute) and node.func.attr == "index" and node.args \
-                    and isinstance(node.args[0], ast.Constant) and not isinstance(mm.parents.get(node), ast.Try):
-                inside_try = False
-                q = node
+                    and not isinstance(node.func.value, ast.Constant):
+                # list.index / str.index raise ValueError when the element is absent: only harmless inside a try of the same
+                # function whose handler catches ValueError (or everything) without re-raising
+                caught = False
+                q, child = node, node
                 while q in mm.parents and q is not fn:
-                    q = mm.parents[q]
-                    if isinstance(q, ast.Try):
-                        inside_try = True
-                if not inside_try:
+                    child, q = q, mm.parents[q]
+                    if isinstance(q, ast.Try) and any(child is st_ for st_ in q.body):
+                        for h in q.handlers:
+                            types = norm(h.type) if h.type is not None else "BaseException"
+                            if any(t in types for t in ("ValueError", "Exception", "BaseException")) and \
+                                    not any(isinstance(x, ast.Raise) for x in ast.walk(h)):
+                                caught = True
+                if not caught:
                     probs.append(f"{norm(node)[:60]}: ValueError when the element is absent")
         rep.check(not probs, rule, f"{AGG}:{lm.cls}.{mname}", "no unguarded partial operation",
                   f"a valid input can make this callback raise: {'; '.join(probs)[:200]}",
